@@ -80,6 +80,8 @@ type SimReader struct {
 	stdSlice     []byte        // Std == "bytes.Reader": the caller's slice under the reader
 	Reused       bool          // the caller reused the reader's storage after the parse
 	FileFallback bool          // no temp file could be created; a bytes.Reader stood in
+
+	onRead func() // called at the start of every Read (a reader that re-enters the library)
 }
 
 func newSimReader(doc []byte, scn *ReaderScn, seq *int) *SimReader {
@@ -148,6 +150,9 @@ func (r *SimReader) scribble(p []byte, n int) {
 func (r *SimReader) Read(p []byte) (n int, err error) {
 	simrt.Yield(siteRead)
 	r.Reads++
+	if r.onRead != nil {
+		r.onRead()
+	}
 	defer func() { r.scribble(p, n); r.record(len(p), n, err) }()
 	if r.pending != nil {
 		err, r.pending = r.pending, nil
